@@ -284,7 +284,7 @@ fn check(ctx: &Ctx, c: &Case) -> PResult {
 }
 
 pub fn props() -> Vec<(Box<dyn PropDyn>, u32, u32)> {
-    vec![(Box::new(Prop::new("fixed_base", case_strategy, check).shrink(80)), 320, 8000)]
+    vec![(Box::new(Prop::new("fixed_base", case_strategy, check).shrink(80)), 1200, 12000)]
 }
 
 pub fn describe(ctx: &Ctx) {
